@@ -180,7 +180,7 @@ def upvar_sources(ctx, child):
     parent = ctx.P.bodies.get(child.parent) if child.parent else None
     if parent is None and child.parent:
         # parent recorded by def path; bin crates are keyed with a crate prefix
-        for k, b in ctx.P.bodies.items():
+        for k, b in ctx.P.scan():
             if b.name == child.parent and b.crate == child.crate:
                 parent = b
     if parent is None:
@@ -217,3 +217,11 @@ def stores_through(body, o):
             val = o._call(t, bi, (), 0, frozenset())
             out.append((bi, blk["tspan"]["line"], base, val, t["dest"]))
     return out
+
+
+def param(body, i):
+    """name of the i-th parameter (0-based, `self` included) of a fn body or of the coroutine body of an async fn.
+    Rules use positions, not spellings, so that renaming a parameter is not an alarm."""
+    if body.is_coroutine:
+        return body.upvars.get(i)
+    return body.debug.get(i + 1)
